@@ -10,6 +10,7 @@ import PacketVerif.Drv.ArpHunt
 import PacketVerif.Drv.Fastlog
 import PacketVerif.Drv.Dhcp4Srv
 import PacketVerif.Drv.Dhcp4File
+import PacketVerif.Drv.Dhcp4Restart
 import PacketVerif.Drv.Dhcp4Opt
 open PV
 
@@ -31,6 +32,7 @@ def dispatch (line : String) : String :=
       Drv.Fastlog.handle,
       Drv.Dhcp4Srv.handle,
       Drv.Dhcp4File.handle,
+      Drv.Dhcp4Restart.handle,
       Drv.Dhcp4Opt.handle
     ]
     match hs.findSome? (fun h => h cmd args) with
